@@ -156,6 +156,14 @@ pub fn input_tuples(tier: Tier) -> Vec<InTuple> {
             out.push(t);
         }
     }
+    // credential identifiers have NO length limit (they are never length-prefixed, RFC 9807 4.): well beyond 65535 bytes
+    for n in [255usize, 256, 65535, 65536, 65537, 100_000] {
+        let mut t = d.clone();
+        t.devs = 1;
+        t.boundary = true;
+        t.p.cid = (0..n).map(|i| b'c'.wrapping_add(i as u8)).collect();
+        out.push(t);
+    }
     // dedupe (the product overlaps the deviation set), keeping first occurrences (simplest first)
     let mut seen = std::collections::HashSet::new();
     out.retain(|t| seen.insert(crate::fw::h128(t)));
